@@ -17,7 +17,9 @@ impl Display for Number {
         if self.radix == 16 {
             write!(f, "0x{:X}", self.value.0 as u64)?;
         } else {
-            write!(f, "{:.*}", self.precision, self.value.0)?;
+            // The formatting machinery panics on a run-time precision above `u16::MAX`.
+            let precision = self.precision.min(u16::MAX as usize);
+            write!(f, "{:.*}", precision, self.value.0)?;
         }
 
         if let Some(suffix) = self.suffix {
